@@ -14,6 +14,22 @@ CLAIMED = {
         design="4/C13",
         note="Trusted: Coq kernel+vm_compute; ast translator for the gate kernels; numpy semantics of masks/views; group<->state link checked numerically (oracle), not proved.",
         technique="Coq proof (per-row conjugation theorems, all n) + source-to-Coq translator with generated equality lemmas + vm_compute correspondence"),
+    "C05": dict(
+        text="Coq theorems over Model V (sequential semantics of the virtual-node network) for every state and operation: a refused operation returns the whole network state unchanged (refusal_atomic), "
+             "iff-tables for every refusal cause, no undocumented failure; model tied to the code by step-by-step dump equality (bookkeeping + exact generator matrices + returned value / exception class) on random and scripted histories.",
+        design="4/C05",
+        note="Trusted: Coq kernel; in-process harness (direct wiring, virtual clock, scripted coin); Twisted/numpy not modelled; lock release is observed by the oracle, not proved. Error class across a real PB boundary is checked by the PB part when present.",
+        technique="Coq proof (atomicity + decision tables over all states) + vm_compute correspondence of Model V with the real virtual nodes"),
+    "C06": dict(
+        text="Coq theorems: an operation of any kind through a stale handle is the identity on the whole network state; handle ids are unique and never reused, so a handle whose qubit was sent or measured destructively is stale after any later history (induction over all operation sequences). Tie: dump equality after every operation, ~25% of operations issued through retained stale handles.",
+        design="4/C06",
+        note="Trusted: as C05. Handle ids are ghost state of the model (allocated whenever the code constructs a virtualQubit); the harness assigns the same ids to the Python objects.",
+        technique="Coq proof (invariant by induction over operation lists) + vm_compute correspondence"),
+    "C07": dict(
+        text="Coq theorems: for every capacity configuration and every history (failed operations included) every node holds at most its configured maximum; create/receive succeed iff held < max (register availability made explicit); two-qubit gates are never refused for capacity. Tie: dump equality after every operation against capacities 1..5 / registers 1..8.",
+        design="4/C07",
+        note="Trusted: as C05. Concurrent arrivals for the last slot are covered by the PB schedules of C03 when present, not by this sequential model.",
+        technique="Coq proof (capacity invariant over fold_left step + iff decision theorems) + vm_compute correspondence"),
 }
 
 PENDING_REASON = "machinery for this property is not built yet in this revision (no claim made); see DESIGN.md section 4"
